@@ -46,6 +46,7 @@ import (
 	"bytes"
 	"crypto/sha256"
 	"encoding/hex"
+	"errors"
 	"fmt"
 	"io/fs"
 	"os"
@@ -58,6 +59,7 @@ import (
 	"time"
 
 	"github.com/nspcc-dev/bbolt"
+	berrors "github.com/nspcc-dev/bbolt/errors"
 	"github.com/nspcc-dev/neofs-node/pkg/local_object_storage/blobstor/fstree"
 	meta "github.com/nspcc-dev/neofs-node/pkg/local_object_storage/metabase"
 	"github.com/nspcc-dev/neofs-node/pkg/local_object_storage/shard/mode"
@@ -104,6 +106,14 @@ type obj struct {
 func noSyncBolt() *bbolt.Options {
 	o := *bbolt.DefaultOptions
 	o.NoSync = true
+	// File-lock timeout: without one bbolt.Open retries flock forever (50 ms
+	// sleeps) when a handle of the same file leaked, which would hang the case
+	// instead of failing SetMode. Any value <= 50 ms makes the first contended
+	// attempt return ErrTimeout without sleeping (no dependence on fake time,
+	// which cannot advance while e.g. the GC goroutine waits for the shard mutex
+	// held by SetMode). Inside one process the lock is never contended unless a
+	// handle leaked, so the value cannot cause a false alarm.
+	o.Timeout = time.Millisecond
 	return &o
 }
 
@@ -430,6 +440,9 @@ func runCase(t *rapid.T, rec *ev.Recorder) {
 		logf("SETMODE %s->%s fault=%s -> %v (reports %s)", modeShort[prev], modeShort[target], f, err, modeShort[m])
 		if err == nil && m != target {
 			fail("SetMode(%s) returned nil but GetMode() == %s", target, m)
+		}
+		if errors.Is(err, berrors.ErrTimeout) {
+			fail("SetMode(%s) cannot lock the metabase file: an earlier mode switch leaked an open handle of it (the shard cannot change its mode any more): %v", target, err)
 		}
 		lastOK, lastTarget = err == nil, target
 		switch {
